@@ -187,9 +187,28 @@ def judge(case):
         a = sut.call(res[1], {"u": "x"})
         if a[0] != "group" or not sut.same_value(a[1], v):
             viol.append("group definition (between zero-weight groups) returned %r, expected %r" % (a[1:], v))
+    # (ii-b) ... also when the literal arrives through recompile() on a live evaluator that holds the same program with the other
+    # literal, handed over as a temporary whose object id is recycled (only the literals differ, padded to the same size)
+    t_other, t_lit = M.render(M.program("e", M.ret([(other, "1")]))), M.render(M.program("e", M.ret([(lit, "1")])))
+    res = sut.compile_text(t_other)
+    if res[0] == "ok" and t_other != t_lit:
+        from .. import common
+
+        try:
+            common.recycled_recompile(res[1], t_other, t_lit)
+            a = sut.call(res[1], {})
+            if a[0] != "group" or not sut.same_value(a[1], v):
+                viol.append("group definition %s reached a live evaluator through recompile() (it held %s): returned %r, expected %r (%s)"
+                            % (M.tokens_text(M.lit_tokens(lit)), M.tokens_text(M.lit_tokens(other)), a[1:], v, type(v).__name__))
+        except Exception as e:
+            viol.append("recompile to the program with group definition %s raised %s: %s" % (M.tokens_text(M.lit_tokens(lit)), type(e).__name__, e))
     # (i) predicate operands
     envs = [{"x": n} for n in nb]
     x = M.ident("x")
+    # the compared field may at the same time be a splitter (its text goes into the key, its VALUE is compared)
+    _run_prog(M.program("e", M.if_([(M.cmp_(x, "==", lit), R_EQ)], R_NE), splitters=["x"]), envs, viol, "right operand of == (field is also a splitter)")
+    _run_prog(M.program("e", M.if_([(M.cmp_(x, "in", M.tup([other, lit])), R_EQ)], R_NE), salt="s", splitters=["x", "y"]),
+              [dict(e, y=1) for e in envs] + [{"x": ov, "y": 2}], viol, "tuple member (field is also a splitter)")
     _run_prog(M.program("e", M.if_([(M.cmp_(x, "==", lit), R_EQ)], R_NE)), envs, viol, "right operand of ==")
     _run_prog(M.program("e", M.if_([(M.cmp_(lit, "==", x), R_EQ)], R_NE)), envs, viol, "left operand of ==")
     _run_prog(M.program("e", M.if_([(M.cmp_(x, "!=", lit), R_NE)], None)), envs, viol, "right operand of !=")
